@@ -51,7 +51,9 @@ def rr_cases(draw):
     lineup = draw(gen.lineup_spec(kinds=KINDS, min_len=n, max_len=n, max_bs=6))
     ops = draw(st.lists(st.one_of(st.tuples(st.just("calibrate"), st.integers(1, 5)), st.tuples(st.just("restore")),
                                   st.tuples(st.just("calibrate"), st.integers(1, 5)), st.tuples(st.just("failing_batch")),
-                                  st.tuples(st.just("caller_edits_its_list"))),
+                                  st.tuples(st.just("caller_edits_its_list")),
+                                  st.tuples(st.just("set_samplers"), gen.lineup_spec(kinds=["halton", "rseq", "uniform"], min_len=1,
+                                                                                     max_len=5, max_bs=4))),
                         min_size=1, max_size=6))
     ops = [list(o) for o in ops]
     if ops[0][0] != "calibrate":
@@ -69,7 +71,8 @@ def check_rr(ctx: Ctx, case):
     ncal = sum(1 for o in ops if o[0] == "calibrate")
     nrest = sum(1 for o in ops if o[0] == "restore")
     ctx.count(sub, case, (ncal >= 2 or nrest >= 1) and total % n != 0, [f"n={n}", f"restores={min(nrest, 2)}"] +
-              (["failing-batch"] if any(o[0] == "failing_batch" for o in ops) else []))
+              (["failing-batch"] if any(o[0] == "failing_batch" for o in ops) else []) +
+              (["set_samplers"] if any(o[0] == "set_samplers" for o in ops) else []))
     folder = tempfile.mkdtemp(prefix="c09-")
     pure = models.get(cfg["model"], cfg["D"])
     flag = {"fail": False}
@@ -90,10 +93,23 @@ def check_rr(ctx: Ctx, case):
             sizes = [s.batch_size for s in cal.scheduler.samplers]
             classes = [type(s).__name__ for s in cal.scheduler.samplers]
             done = 0
+            replaced = False
+            hist_b, hist_m = [], []
+            saved = (n, sizes, classes)
             for op in ops:
                 if op[0] == "restore":
                     if done:
                         cal = Calibrator.restore_from_checkpoint(folder, model)
+                        n, sizes, classes = saved          # the checkpoint holds the line-up of the last completed batch
+                    continue
+                if op[0] == "set_samplers":
+                    # a replaced line-up: batch i (still counted over the whole life) now comes from sampler i mod n_new
+                    new = [gen.make_sampler(x) for x in op[1]]
+                    cal.set_samplers(new)
+                    n = len(new)
+                    sizes = [x.batch_size for x in new]
+                    classes = [type(x).__name__ for x in new]
+                    replaced = True
                     continue
                 if op[0] == "caller_edits_its_list":
                     # the list handed to the constructor belongs to the caller, who may recycle it for something else
@@ -136,8 +152,11 @@ def check_rr(ctx: Ctx, case):
                 if len(lg.log) != done:
                     ctx.fail("C09/batch-count", f"{len(lg.log)} batches ran after requesting {done}", sub, case)
                     return
-                expb = np.concatenate([[b] * sizes[b % n] for b in range(done)])
-                expm = np.concatenate([[cal.samplers_id_table[classes[b % n]]] * sizes[b % n] for b in range(done)])
+                for b in range(done - op[1], done):
+                    hist_b += [b] * sizes[b % n]
+                    hist_m += [cal.samplers_id_table[classes[b % n]]] * sizes[b % n]
+                expb, expm = np.array(hist_b), np.array(hist_m)
+                saved = (n, list(sizes), list(classes))
                 if not (np.array_equal(cal.batch_num_samp, expb) and np.array_equal(cal.method_samp, expm)):
                     ctx.fail("C09/labels", f"batch/method labels {cal.batch_num_samp.tolist()} / {cal.method_samp.tolist()} do "
                              f"not follow the round-robin order", sub, case)
